@@ -10,6 +10,7 @@ import BB.Spec.Decode16
 import BB.Spec.Intent
 import BB.Spec.Legal
 import BB.Spec.Exec
+import BB.Spec.Compressible
 import BB.Item
 import BB.Dict
 import BB.Passes
